@@ -164,6 +164,13 @@ class Intervals:
                 if rv['akind'] == 'adt' and rv.get('variant') in ('Ok', 'Some', 'Continue') and rv['ops']:
                     st[('p', p['l'])] = self.ub_op(rv['ops'][0], st)
                 continue
+            if rv['k'] == 'use' and rv['op']['k'] in ('copy', 'move') and not p['p']:
+                sp = rv['op']['place']
+                # x = (n as Some).0 where n is the tuple item of an enumerate(): carry the per-field bounds to x
+                if len(sp['p']) == 2 and sp['p'][0]['k'] == 'downcast' and sp['p'][1]['k'] == 'field' and sp['p'][1]['name'] == '0' and ('pt', sp['l']) in st:
+                    for i, v in enumerate(st[('pt', sp['l'])]):
+                        if v is not None:
+                            st[('t', p['l'], str(i))] = v
             if rv['k'] == 'use' and rv['op']['k'] in ('copy', 'move') and not p['p'] and not rv['op']['place']['p']:
                 # moving an enum/aggregate local: carry payload/field info along
                 src = rv['op']['place']['l']
@@ -387,6 +394,15 @@ class Intervals:
                 continue
             sd = step[0]
             rv = sd[3]
+            # look through whole-local copies (a fold's accumulator is handed to the step closure and back)
+            for _ in range(6):
+                if rv['k'] == 'use' and rv['op']['k'] in ('copy', 'move') and not rv['op']['place']['p']:
+                    ds2 = b.defs().get(rv['op']['place']['l'], [])
+                    if len(ds2) == 1 and ds2[0][0] == 'assign':
+                        sd = ds2[0]
+                        rv = sd[3]
+                        continue
+                break
             if not (rv['k'] == 'use' and rv['op']['k'] in ('copy', 'move') and len(rv['op']['place']['p']) == 1 and rv['op']['place']['p'][0].get('name') == '0'):
                 continue
             tl = rv['op']['place']['l']
@@ -395,6 +411,17 @@ class Intervals:
                 continue
             add = tds[0]
             a, x = add[3]['a'], add[3]['b']
+
+            def copy_root(o):
+                for _ in range(6):
+                    if o['k'] in ('copy', 'move') and not o['place']['p'] and o['place']['l'] != l:
+                        ds3 = b.defs().get(o['place']['l'], [])
+                        if len(ds3) == 1 and ds3[0][0] == 'assign' and ds3[0][3]['k'] == 'use':
+                            o = ds3[0][3]['op']
+                            continue
+                    break
+                return o
+            a = copy_root(a)
             if not (a['k'] in ('copy', 'move') and not a['place']['p'] and a['place']['l'] == l):
                 continue
             lp = b.innermost_loop(sd[1])
